@@ -141,7 +141,7 @@ GRV_CMD(facelife) {
         if (!prepare(*tf, kind)) { fprintf(stderr, "cannot prepare font kind %s\n", kind.c_str()); return 2; }
         tf->events.reserve(4096); tf->bufs.reserve(512);
         // a face made without a release_table callback (make_face argument 16..23) never hands anything back
-        const bool norel = !(*v)["hist"].a.empty() && (*(*v)["hist"].a[0])["op"].s == "make_face" && (*(*v)["hist"].a[0])["arg"].num() >= 16;
+        const bool norel = !(*v)["hist"].a.empty() && (*(*v)["hist"].a[0])["op"].s == "make_face" && (*(*v)["hist"].a[0])["arg"].num() >= 16 && (*(*v)["hist"].a[0])["arg"].num() < 24;
         tf->noRelease = norel;
         fprintf(tr, "{\"e\":\"Reset\",\"kind\":\"%s\",\"nr\":%d}\n", kind.c_str(), norel ? 1 : 0);
         size_t cursor = 0;
@@ -162,7 +162,7 @@ GRV_CMD(facelife) {
             ++calls;
             fprintf(tr, "{\"e\":\"Call\",\"op\":\"%s\",\"arg\":%ld}\n", op.c_str(), arg);
             int ok = 1; std::string h, key;
-            if (op == "make_face") { face = arg >= 8 && arg < 16 ? gr_make_file_face(file_of(kind).c_str(), unsigned(arg - 8)) : tf->make(unsigned(arg & 7)); ok = face != 0; }
+            if (op == "make_face") { face = arg >= 8 && arg < 16 ? gr_make_file_face(file_of(kind).c_str(), unsigned(arg - 8)) : arg >= 24 ? tf->make_with_seg_cache(unsigned(arg & 7)) : tf->make(unsigned(arg & 7)); ok = face != 0; }
             else if (op == "label") {
                 // hidden features are not counted by gr_face_n_fref but can be found by their id
                 gr_uint32 firstId = 0;
